@@ -1,7 +1,9 @@
 package refsmtp
 
 import (
+	"bytes"
 	"net"
+	"strings"
 	"sync"
 	"time"
 
@@ -16,6 +18,114 @@ type TrackConn struct {
 	once   sync.Once
 	mu     sync.Mutex
 	closed bool
+
+	// scripted transport failures (cleartext connections only): WFail lists the command
+	// occurrences whose write fails; a CONTENT key fails the first write of that message's content.
+	WFail   map[Key]bool
+	Addr    map[string][2]int
+	last    int
+	ehlo    int
+	authj   int
+	inAuth  bool
+	dataCmd bool // a DATA line was written, its reply not yet seen
+	inData  bool
+	broken  bool
+}
+
+var errReset = &net.OpError{Op: "write", Net: "pipe", Err: errConnReset{}}
+
+type errConnReset struct{}
+
+func (errConnReset) Error() string { return "connection reset by peer (scripted)" }
+
+// keyOf mirrors the command keys of the reference server for a cleartext command line.
+func (t *TrackConn) keyOf(line string) Key {
+	raw := strings.TrimRight(line, "\r\n")
+	verb := strings.ToUpper(strings.SplitN(raw, " ", 2)[0])
+	if t.inAuth && verb != "QUIT" && raw != "*" {
+		t.authj++
+		return Key{"AUTHRESP", 0, t.authj}
+	}
+	arg := ""
+	if i := strings.IndexByte(raw, ' '); i >= 0 {
+		arg = raw[i+1:]
+	}
+	switch verb {
+	case "MAIL", "RCPT":
+		path, _ := splitPath(arg)
+		mr := t.Addr[path]
+		if verb == "MAIL" {
+			t.last = mr[0]
+		}
+		return Key{verb, mr[0], mr[1]}
+	case "EHLO":
+		t.ehlo++
+		return Key{"EHLO", 0, t.ehlo}
+	case "HELO":
+		return Key{"HELO", 0, 1}
+	case "AUTH":
+		t.inAuth, t.authj = true, 0
+		return Key{"AUTH", 0, 0}
+	case "*":
+		t.inAuth = false
+		return Key{"ABORT", 0, 0}
+	case "QUIT", "STARTTLS":
+		t.inAuth = false
+		return Key{verb, 0, 0}
+	case "DATA", "RSET", "NOOP":
+		return Key{verb, t.last, 0}
+	}
+	return Key{"OTHER", 0, 0}
+}
+
+// Write fails scripted writes; afterwards the transport is broken in both directions.
+func (t *TrackConn) Write(p []byte) (int, error) {
+	t.mu.Lock()
+	if t.broken {
+		t.mu.Unlock()
+		return 0, errReset
+	}
+	if len(t.WFail) > 0 {
+		fail := false
+		if t.inData {
+			if t.WFail[Key{"CONTENT", t.last, 0}] {
+				fail = true
+			}
+			if bytes.HasSuffix(p, []byte("\r\n.\r\n")) {
+				t.inData = false
+			}
+		} else if bytes.HasSuffix(p, []byte("\r\n")) && bytes.Count(p, []byte("\n")) == 1 {
+			k := t.keyOf(string(p))
+			fail = t.WFail[k]
+			t.dataCmd = k.V == "DATA"
+		}
+		if fail {
+			t.broken = true
+			t.mu.Unlock()
+			t.rec.Emit("wfail")
+			_ = t.Conn.Close() // the peer sees the connection go away
+			return 0, errReset
+		}
+	}
+	t.mu.Unlock()
+	return t.Conn.Write(p)
+}
+
+// Read watches for the reply to DATA (354 switches to content mode) and for the end of AUTH.
+func (t *TrackConn) Read(p []byte) (int, error) {
+	n, err := t.Conn.Read(p)
+	if len(t.WFail) > 0 && n >= 3 {
+		t.mu.Lock()
+		if t.dataCmd {
+			t.inData = string(p[:3]) == "354"
+			t.dataCmd = false
+		}
+		if t.inAuth && string(p[:3]) != "334" {
+			t.inAuth = false
+		}
+		t.mu.Unlock()
+	}
+	return n, err
 }
 
 // NewTrackConn wraps c.
